@@ -44,7 +44,7 @@ func Shapes(f *ast.File, fset *gotoken.FileSet, src []byte) []string {
 		}
 	}
 	var keywordIdent, lambdaInHeader bool
-	var commentInOverload, envSplit, lambdaArgNewline, commentInMatrix, importRparen, parenLambdaBlock bool
+	var commentInOverload, envSplit, lambdaArgNewline, commentInMatrix, importRparen, parenLambdaBlock, matrixRowEllipsis bool
 	commentIn := func(lo, hi gotoken.Pos) bool {
 		for _, g := range f.Comments {
 			if g.Pos() > lo && g.Pos() < hi {
@@ -234,6 +234,15 @@ func Shapes(f *ast.File, fset *gotoken.FileSet, src []byte) []string {
 			if commentIn(v.Lbrack, v.Rbrack) {
 				commentInMatrix = true
 			}
+			// a row other than the last that ends in `x...`: printed one row per line, and inside
+			// parentheses the scanner inserts no semicolon after `...`
+			for i, row := range v.Elts {
+				if i+1 < len(v.Elts) && len(row) > 0 {
+					if _, ok := row[len(row)-1].(*ast.ElemEllipsis); ok && parenDepthAt(src, off(v.Lbrack)) > 0 {
+						matrixRowEllipsis = true
+					}
+				}
+			}
 		case *ast.GenDecl:
 			if v.Tok == token.IMPORT && v.Rparen.IsValid() && len(v.Specs) > 0 && line(v.Rparen) == line(v.Specs[len(v.Specs)-1].Pos()) && line(v.Lparen) != line(v.Rparen) {
 				importRparen = true
@@ -262,6 +271,7 @@ func Shapes(f *ast.File, fset *gotoken.FileSet, src []byte) []string {
 	add(guardInParen, "type-guard-in-paren")
 	add(envSplit, "env-expr-split-over-lines")
 	add(commentInMatrix, "comment-in-matrix-lit")
+	add(matrixRowEllipsis, "matrix-row-ellipsis-in-parens")
 	add(braceInHeader, "brace-in-header")
 	add(lambdaInHeader, "lambda-block-in-header")
 	add(ellipsisInHeader, "elem-ellipsis-in-header")
@@ -282,4 +292,21 @@ func lastNonSpace(src []byte, before int) int {
 		return i
 	}
 	return -1
+}
+
+// parenDepthAt counts the parentheses open at offset at (tokens only: strings and comments do not count).
+func parenDepthAt(src []byte, at int) int {
+	d := 0
+	for _, t := range Tokens(src) {
+		if t.Off >= at {
+			break
+		}
+		switch t.Tok {
+		case token.LPAREN:
+			d++
+		case token.RPAREN:
+			d--
+		}
+	}
+	return d
 }
